@@ -5,7 +5,7 @@
 // references, which XML 1.0 section 3.3.3 attribute-value normalisation needs and
 // encoding/xml does not expose).
 //
-// Input : ndjson cases {"id":n,"keep":bool,"in":[bytes]}
+// Input : ndjson cases {"id":n,"keep":bool,"path":0|1|2,"in":[bytes]}
 // Output: two ndjson files with one line per case each:
 //
 //	trace (what TLC reads, see spec/C06Trace.tla): {keep, panic, err, outwf, ein:[ev], eout:[ev]}
@@ -36,6 +36,7 @@ import (
 type Case struct {
 	ID   int       `json:"id"`
 	Keep bool      `json:"keep"`
+	Path int       `json:"path"` // entry point: 0 Minifier.Minify, 1 package-level Minify (default options only), 2 registry M.Add + M.Bytes
 	In   lib.Bytes `json:"in"`
 }
 
@@ -408,13 +409,21 @@ func runCase(c Case) Event {
 	// the minifier may write into its input buffer: give it a private copy
 	in := append([]byte{}, c.In...)
 	ev.Panic, ev.Msg = lib.Guard(func() {
-		if !c.Keep && c.ID%2 == 0 {
-			// the package-level entry point (default options) for half of the default-option cases
-			err = mxml.Minify(minify.New(), &out, bytes.NewReader(in), nil)
-			return
-		}
 		o := &mxml.Minifier{KeepWhitespace: c.Keep}
-		err = o.Minify(minify.New(), &out, bytes.NewReader(in), nil)
+		switch {
+		case c.Path == 1 && !c.Keep:
+			// the package-level entry point (default options)
+			err = mxml.Minify(minify.New(), &out, bytes.NewReader(in), nil)
+		case c.Path == 2:
+			// through the registry: M.Add + M.Bytes with an XML media type
+			m := minify.New()
+			m.Add("application/xml", o)
+			var b []byte
+			b, err = m.Bytes("application/xml", in)
+			out.Write(b)
+		default:
+			err = o.Minify(minify.New(), &out, bytes.NewReader(in), nil)
+		}
 	})
 	if err != nil {
 		ev.Err = err.Error()
